@@ -213,6 +213,14 @@ def build(case):
     else:
         psi = nprng.normal(size=shape) + 1j * nprng.normal(size=shape)
     psi = np.asarray(psi)
+    # memory layout of the input: C-contiguous, Fortran-ordered, or a transposed view (as produced by the lazy
+    # leg permutation of the tensor dictionary); decided from the seed so that old replays keep their meaning
+    layout = case["seed"] % 3 if psi.ndim >= 2 else 0
+    if layout == 1:
+        psi = np.asfortranarray(psi)
+    elif layout == 2:
+        perm = list(range(psi.ndim))[::-1]
+        psi = np.ascontiguousarray(np.transpose(psi, perm)).transpose(perm)   # same values, non-contiguous view
     return H, psi
 
 
